@@ -174,3 +174,18 @@ def x2(cx: Cx, ob: Ob) -> None:
     from ..rules import state_closure
 
     state_closure(cx, ob)
+
+
+@obligation("C08-X6", "LOOKUP None-discipline (shared with C02-D3): lookup results and str|None results are tested with `is None`, never by truthiness - the empty prefix, the empty URI prefix and the empty identifier are legitimate values", floor=40)
+def x6(cx: Cx, ob: Ob) -> None:
+    from ..rules import scan_none_discipline
+    from .c02 import none_scope
+
+    scan_none_discipline(cx, ob, none_scope(cx))
+
+
+@obligation("C08-D4", "the classification order of parse (URI test before CURIE test) is the same in every mode, so strict and default calls return the same reference for strings readable as both (shared with C07-D2)", floor=2)
+def d4(cx: Cx, ob: Ob) -> None:
+    from .c07 import d2 as parse_order
+
+    parse_order(cx, ob)
